@@ -14,6 +14,12 @@ import (
 	"strings"
 )
 
+// PreCall is "precall <regexp on the callee's full name> :: <condition over parameters and locals>".
+type PreCall struct {
+	Re *regexp.Regexp
+	Cl *Clause
+}
+
 type Clause struct {
 	Kind  string // requires, ensures, invariant, assumes, modifies, global, assert
 	Text  string // contract-language source
@@ -45,6 +51,7 @@ type Contract struct {
 	Requires []*Clause
 	Ensures  []*Clause
 	Defines  []*Clause // definitional postconditions: introduce an uninterpreted predicate as "this deterministic function accepts"; assumed at call sites, not checked
+	PreCalls []*PreCall // call-site obligations: every call of a matching callee is made only when the condition holds (dominance)
 	EnsuresLocal []*Clause // postconditions that may mention top-level local variables (their value at the return)
 	Assumes  []*Clause
 	Modifies []*Clause
@@ -95,7 +102,7 @@ type Lemma struct {
 var clauseKeywords = map[string]bool{
 	"func": true, "props": true, "safety": true, "requires": true, "ensures": true,
 	"modifies": true, "loop": true, "trusted": true, "pure": true, "opaque": true, "ghost": true,
-	"global": true, "lemma": true, "assumes": true, "import": true, "note": true, "cases": true, "end": true, "trustframe": true, "ensures-local": true, "defines": true,
+	"global": true, "lemma": true, "assumes": true, "import": true, "note": true, "cases": true, "end": true, "trustframe": true, "ensures-local": true, "defines": true, "precall": true,
 }
 
 var funcKeyRe = regexp.MustCompile(`^(?:\(\s*\*?\s*(\w+)\s*\)\s*\.\s*(\w+)|(\w+)\s*\.\s*(\w+)|(\w+))`)
@@ -246,6 +253,18 @@ func parseSpecFile(path, relDir string) (*PkgSpec, error) {
 				c := mk("ensures", it.text, it.line, len(cur.Defines))
 				c.Label = fmt.Sprintf("defines%d", len(cur.Defines))
 				cur.Defines = append(cur.Defines, c)
+			case "precall":
+				parts := strings.SplitN(it.text, "::", 2)
+				if len(parts) != 2 {
+					return nil, fmt.Errorf("%s:%d: precall needs `<callee regexp> :: <condition>`", path, it.line)
+				}
+				re, err := regexp.Compile(strings.TrimSpace(parts[0]))
+				if err != nil {
+					return nil, fmt.Errorf("%s:%d: %v", path, it.line, err)
+				}
+				c := mk("ensures", strings.TrimSpace(parts[1]), it.line, len(cur.PreCalls))
+				c.Label = fmt.Sprintf("precall%d", len(cur.PreCalls))
+				cur.PreCalls = append(cur.PreCalls, &PreCall{Re: re, Cl: c})
 			case "ensures-local":
 				c := mk("ensures", it.text, it.line, len(cur.EnsuresLocal))
 				c.Label = fmt.Sprintf("ensureslocal%d", len(cur.EnsuresLocal))
